@@ -21,8 +21,8 @@ mkdir -p coq/gen work
     rm -f _CoqProject.new
   fi
   if [ $# -eq 0 ]; then
-    timeout 3000 make -k -j"${VERIF_JOBS:-12}" 2>&1
+    timeout 3000 make -k -j"${VERIF_JOBS:-12}" COQC="timeout ${VERIF_COQC_TIMEOUT:-900} coqc" 2>&1
   else
-    timeout 3000 make -k -j"${VERIF_JOBS:-12}" "$@" 2>&1
+    timeout 3000 make -k -j"${VERIF_JOBS:-12}" COQC="timeout ${VERIF_COQC_TIMEOUT:-900} coqc" "$@" 2>&1
   fi
 ) 9> work/.build.lock
